@@ -384,6 +384,35 @@ func c13inputUnits(tier string) []mc.Unit {
 		r.AddStates(4)
 		r.AddTransitions(4)
 	}})
+	// names with blanks and other odd characters at either end and inside (a name is the whole header line after '>')
+	us = append(us, mc.Unit{Name: "names", Weight: 10, Run: func(r *mc.Recorder) {
+		var cnt int64
+		names := []string{"trailing blank ", "trailing tab\t", " leading blank", "\tleading tab", "two  blanks", "a\tb", "", " ", ">", ">>x", ";semi", "x;y", "a>b", "name with | pipes [and] {braces}", "\u00e9\u4e2d", "ends with backslash\\", "#hash", "quote\"s"}
+		for _, n1 := range names {
+			for _, n2 := range []string{"plain", n1} {
+				list := []fasta.Fasta{{Name: n1, Sequence: "ACGTACGT"}, {Name: n2, Sequence: "TTGA"}}
+				for _, viaBuild := range []bool{true, false} {
+					var text []byte
+					if viaBuild {
+						text = fasta.Build(list)
+					} else {
+						text = []byte(">" + n1 + "\r\nACGT\r\nACGT\r\n>" + n2 + "\r\nTTGA\r\n")
+					}
+					var got []fasta.Fasta
+					p := catch(func() { got = fasta.Parse(bytes.NewReader(text)) })
+					cnt++
+					if p != "" || !c13equal(got, list) {
+						r.Failf("write-read", fmt.Sprintf("names %q and %q, text from Build=%v", n1, n2, viaBuild), []string{"names"}, c13show(list), c13show(got)+p)
+					}
+				}
+			}
+		}
+		r.Eval(cnt)
+		r.AddStates(cnt)
+		r.AddTransitions(cnt)
+		r.AddNontrivial(cnt)
+		r.Bound("names", fmt.Sprintf("%d names (blanks and tabs at either end, sigils of the format, non-ASCII) alone and repeated, through Build and an independent CRLF layout", len(names)))
+	}})
 	// one long line of every kind (name, comment before / between / inside records, sequence) at lengths around the
 	// usual buffer sizes and in between
 	us = append(us, mc.Unit{Name: "long-lines", Weight: 60, Run: func(r *mc.Recorder) {
